@@ -114,8 +114,40 @@ theorem fe_name_safe (o : Obj) : Tri (PsOnly o.pid) (Fe.name (goodCfg r) o) (fun
   · refine tri_bind (Q := fun _ => True) ?_ (fun _ _ => tri_pure trivial)
     exact tri_tryCatch_same (tri_bind (fe_cmdline_safe r o) (fun _ _ => tri_pure trivial)) (tri_pure trivial)
 
-theorem guessIt_safe (o : Obj) (fb : Option Val) : Tri (PsOnly o.pid) (Fe.guessIt (goodCfg r) o fb) (fun _ => True) := by
+/-- a try whose handler list matches nothing is its body -/
+theorem tryCatch_no_handler {α : Type} (m : M α) (h : PyExc → Option (M α)) (hh : ∀ e, h e = none) :
+    tryCatch m h = m := by
+  funext c s
+  unfold tryCatch
+  rcases hr : m c s with ⟨res, s'⟩
+  cases res with
+  | ok a => rfl
+  | error e => simp only [hh]
+
+/-- guess_it of the source as it is: no handler around `self.cmdline()` (`guessClauses = []`), the tail re-raises the
+    AccessDenied instance (`guessTailRaises`) -/
+theorem guessIt_good (o : Obj) (fb : Option Val) :
+    Fe.guessIt (goodCfg r) o fb = (do
+      let (n, g) ← Fe.cmdline (goodCfg r) o
+      if n > 0 && g then pure Val.str
+      else match fb with
+        | none => throw (.ad o.pid)
+        | some v => pure v) := by
   unfold Fe.guessIt
+  dsimp only
+  rw [tryCatch_no_handler _ _ (fun e => by simp [Fe.clauseOf, goodCfg])]
+  funext c s
+  simp only [bind_eq, M.bind, pure_eq, M.pure]
+  rcases hr : Fe.cmdline (goodCfg r) o c s with ⟨res, s'⟩
+  cases res with
+  | error e => rfl
+  | ok x =>
+    obtain ⟨n, g⟩ := x
+    simp only [goodCfg, if_true]
+    rfl
+
+theorem guessIt_safe (o : Obj) (fb : Option Val) : Tri (PsOnly o.pid) (Fe.guessIt (goodCfg r) o fb) (fun _ => True) := by
+  rw [guessIt_good]
   refine tri_bind (fe_cmdline_safe r o) (fun x _ => ?_)
   obtain ⟨n, g⟩ := x
   dsimp only
@@ -214,14 +246,14 @@ theorem getter_ok (o : Obj) : ∀ nm ∈ getterNames, GetterOK r o nm :=
 
 /-! ### as_dict(): AccessDenied / ZombieProcess become ad_value, only NoSuchProcess escapes -/
 
-theorem asDictLoop_safe (o : Obj) (explicit : Bool) : ∀ (attrs : List String) (n : Nat) (ad : List String),
+theorem asDictLoop_safe (o : Obj) (explicit : Bool) : ∀ (attrs : List String) (n : Nat) (ad bad : List String),
     (∀ nm ∈ attrs, nm ∈ getterNames) →
-    Tri (NspOnly o.pid) (Fe.asDictLoop (goodCfg r) o explicit attrs n ad) (fun _ => True) := by
+    Tri (NspOnly o.pid) (Fe.asDictLoop (goodCfg r) o explicit attrs n ad bad) (fun _ => True) := by
   intro attrs
   induction attrs with
-  | nil => intro n ad _; unfold Fe.asDictLoop; exact tri_pure trivial
+  | nil => intro n ad bad _; unfold Fe.asDictLoop; exact tri_pure trivial
   | cons nm rest ih =>
-    intro n ad hall
+    intro n ad bad hall
     have hrest : ∀ nm ∈ rest, nm ∈ getterNames :=
       fun x hx => hall x (List.mem_cons_of_mem _ hx)
     obtain ⟨g, hg, hsafe⟩ := getter_ok r o nm (hall nm (List.mem_cons_self ..))
@@ -239,9 +271,9 @@ theorem asDictLoop_safe (o : Obj) (explicit : Bool) : ∀ (attrs : List String) 
           rcases he with he | he | he <;> subst he <;>
             simp [goodCfg, catches, PyExc.bases] at h <;> subst h <;> exact tri_pure trivial
       · split
-        · exact ih _ _ hrest
-        · exact ih _ _ hrest
-        · exact ih _ _ hrest
+        · exact ih _ _ _ hrest
+        · exact ih _ _ _ hrest
+        · exact ih _ _ _ hrest
 
 theorem cacheInv_new (p : Nat) : CacheInv { owner := p, active := true } := by intro x h; cases h
 
@@ -259,7 +291,7 @@ theorem asDictOf_safe (o : Obj) (explicit : Bool) (attrs : List String)
         | .ok _ => True
         | .error e => e = PyExc.nsp o.pid) ?_ (fun x hx => ?_)
     · refine tri_tryCatch (E' := NspOnly o.pid)
-        (tri_bind (asDictLoop_safe r o explicit attrs 0 [] hall) (fun _ _ => tri_pure trivial))
+        (tri_bind (asDictLoop_safe r o explicit attrs 0 [] [] hall) (fun _ _ => tri_pure trivial))
         (fun e h => by cases h) (fun e m' h he => ?_)
       cases h
       obtain ⟨_, _, he⟩ := he
@@ -297,7 +329,7 @@ theorem iterLoop_noexc (attrs : List String)
     · refine tri_bind (mkProcess_safe r q) (fun pr hpr => ?_)
       have := asDict_safe r pr attrs hall
       rw [hpr] at this
-      exact tri_bind this (fun x _ => by cases x; rename_i a b; exact tri_pure trivial)
+      exact tri_bind this (fun x _ => by obtain ⟨a, b, c⟩ := x; exact tri_pure trivial)
     · have : e = .nsp q := he
       subst this
       simp [goodCfg, catches, PyExc.bases] at h
